@@ -44,7 +44,7 @@ impl StateMachine<'_> {
             | HunkMinus(Combined(merge_parents, InMergeConflict::No), _)
             | HunkZero(Combined(merge_parents, InMergeConflict::No), _)
             | HunkPlus(Combined(merge_parents, InMergeConflict::No), _) => {
-                handled_line = self.enter_merge_conflict(&merge_parents)
+                handled_line = self.enter_merge_conflict(&merge_parents)?
             }
             MergeConflict(merge_parents, Ours) => {
                 handled_line = self.enter_ancestral(&merge_parents)
@@ -76,14 +76,20 @@ impl StateMachine<'_> {
         Ok(handled_line)
     }
 
-    fn enter_merge_conflict(&mut self, merge_parents: &MergeParents) -> bool {
+    fn enter_merge_conflict(&mut self, merge_parents: &MergeParents) -> std::io::Result<bool> {
         use State::*;
-        if let Some(commit) = parse_merge_marker(&self.line, "++<<<<<<<") {
+        if let Some(commit) = parse_merge_marker(&self.line, "++<<<<<<<").map(str::to_string) {
+            // Whatever precedes the conflict region must be shown before it: a hunk header
+            // that has not been emitted yet, and buffered minus/plus lines.
+            if let HunkHeader(_, parsed_hunk_header, line, raw_line) = &self.state.clone() {
+                self.emit_hunk_header_line(parsed_hunk_header, line, raw_line)?;
+            }
+            self.painter.paint_buffered_minus_and_plus_lines();
             self.state = MergeConflict(merge_parents.clone(), Ours);
-            self.painter.merge_conflict_commit_names[Ours] = Some(commit.to_string());
-            true
+            self.painter.merge_conflict_commit_names[Ours] = Some(commit);
+            Ok(true)
         } else {
-            false
+            Ok(false)
         }
     }
 
